@@ -507,11 +507,15 @@ fn base_lit(mac: &str) -> Lit {
     Lit { mac: mac.to_string(), tokens: String::new(), pos: 0, expect: MUST, denotes: true, text: String::new(), radix: 0, want: String::new(), prec: -1, alt: -1, prec_rt: false, labels: vec![], nontrivial: false }
 }
 
+const KEYWORD_DIGITS: [&str; 56] = [
+    "as", "do", "fn", "if", "in", "box", "dyn", "for", "let", "mod", "mut", "pub", "ref", "use", "try", "else", "enum", "impl", "loop", "move", "self", "Self", "true", "type", "async", "await", "break", "const", "crate", "false", "match", "super", "trait", "union", "while",
+    "yield", "static", "struct", "unsafe", "return", "typeof", "abstract", "continue", "base", "r", "b", "br", "c", "cr", "rb", "x", "o", "e5", "E5", "b1", "f32",
+];
+
 fn int_lit(g: &mut G, signed: bool, stat: bool) -> Lit {
     let mac = format!("{}{}", if stat { "static_" } else { "" }, if signed { "ibig" } else { "ubig" });
     let mut l = base_lit(&mac);
-    let v = mag(g, 2600);
-    l.labels.push(size_label(&v).into());
+    let mut v = mag(g, 2600);
     let s = if signed {
         match g.below(100) {
             0..=44 => 0,
@@ -526,12 +530,34 @@ fn int_lit(g: &mut G, signed: bool, stat: bool) -> Lit {
         3..=5 => 1,
         _ => 2,
     };
-    let n = match form {
+    let mut n = match form {
         0 => 10,
         1 => g.pick(&[2u32, 8, 16, 16]),
         _ => radix_n(g),
     };
-    let body = int_text(g, &v, form, n, &mut l.labels);
+    let mut keyword = None;
+    if form == 2 && g.chance(6) {
+        // digit runs that are Rust keywords or literal prefixes: still one identifier token for a macro
+        let k = g.pick(&KEYWORD_DIGITS);
+        let min = k.chars().map(|c| c.to_digit(36).unwrap() + 1).max().unwrap();
+        n = if g.chance(50) { 36 } else { g.range(min as u64, 36) as u32 };
+        v = BigUint::parse_bytes(k.as_bytes(), n).unwrap();
+        keyword = Some(k.to_string());
+        l.labels.push("token: identifier that is a Rust keyword / literal prefix".into());
+    } else if form == 2 && n > 10 && g.chance(35) {
+        // most significant digit >= 10: the digit run starts with a letter
+        let k = v.to_str_radix(n).len() as u32;
+        let d = g.range(10, n as u64 - 1);
+        v += BigUint::from(d) * num_traits::pow(BigUint::from(n), k as usize);
+        if v.bits() > 2600 {
+            v = BigUint::from(d);
+        }
+    }
+    l.labels.push(size_label(&v).into());
+    let body = match &keyword {
+        Some(k) => k.clone(),
+        None => int_text(g, &v, form, n, &mut l.labels),
+    };
     let sg = sign_text(g, s);
     l.tokens = match form {
         2 => format!("{sg}{body} base {n}"),
@@ -622,10 +648,17 @@ fn float_lit(g: &mut G, kind: u8, stat: bool) -> Lit {
     }
     // where the radix point goes
     let n = d.len();
-    let (mut int, mut frac): (String, Option<String>) = match g.below(10) {
-        0..=3 => (d.clone(), None),
+    let mut undocumented = false;
+    let (mut int, mut frac): (String, Option<String>) = match g.below(21) {
+        20 => {
+            // FromStr: "either aaa or bbb can be omitted"; the macro docs always write an integer part
+            undocumented = true;
+            (String::new(), Some(d.clone()))
+        }
+        0..=3 | 10..=13 => (d.clone(), None),
         4 => (d.clone(), Some(String::new())),
-        5 => ("0".to_string(), Some(d.clone())),
+        5 | 15 => ("0".to_string(), Some(d.clone())),
+        14 => (d.clone(), Some(String::new())),
         _ => {
             if n >= 2 {
                 let k = g.range(1, n as u64 - 1) as usize;
@@ -642,7 +675,7 @@ fn float_lit(g: &mut G, kind: u8, stat: bool) -> Lit {
     });
     let ndigits = (int.len() + frac.as_ref().map_or(0, |f| f.len())) as i64;
     let frac_digits = frac.as_ref().map_or(0, |f| f.len()) as i64;
-    if g.chance(20) {
+    if !int.is_empty() && g.chance(20) {
         int = insert_underscores(g, &int, false);
         l.labels.push("text: underscores".into());
     }
@@ -670,10 +703,14 @@ fn float_lit(g: &mut G, kind: u8, stat: bool) -> Lit {
             ""
         };
         let digits = if g.chance(15) { format!("0{}", e.abs()) } else { format!("{}", e.abs()) };
-        let marker = match kind {
-            0 => g.pick(&['B', 'b']),
-            1 => g.pick(&['p', 'P']),
-            _ => g.pick(&['e', 'E']),
+        let marker = if g.chance(8) {
+            '@'
+        } else {
+            match kind {
+                0 => g.pick(&['B', 'b']),
+                1 => g.pick(&['p', 'P']),
+                _ => g.pick(&['e', 'E']),
+            }
         };
         Some((marker, format!("{sg}{digits}"), e))
     } else {
@@ -723,8 +760,8 @@ fn float_lit(g: &mut G, kind: u8, stat: bool) -> Lit {
         }
     }
     if kind == 0 {
-        if let Some((_, e, ev)) = &exp {
-            let alt = Some(('B', e.clone(), *ev));
+        if let Some((m0, e, ev)) = &exp {
+            let alt = Some((if *m0 == '@' { '@' } else { 'B' }, e.clone(), *ev));
             let t = assemble(&int, &frac, &alt, false);
             cands.push((t.clone(), t, "float: plain tokens"));
         }
@@ -755,6 +792,14 @@ fn float_lit(g: &mut G, kind: u8, stat: bool) -> Lit {
     }
     if sign == 1 {
         l.labels.push("sign: -".into());
+    }
+    if undocumented {
+        l.expect = MAY;
+        l.labels.push("float: no integer part (FromStr grammar, not in the macro docs)".into());
+    }
+    if matches!(exp, Some(('@', _, _))) {
+        l.expect = MAY;
+        l.labels.push("float: @ exponent (FromStr grammar, not in the macro docs)".into());
     }
     // the value that was written
     let mant = BigUint::parse_bytes(d.as_bytes(), drad).expect("digits");
@@ -985,7 +1030,29 @@ fn positive(seed: u64) -> Lit {
             17..=20 => ratio_lit(&mut g, false),
             _ => ratio_lit(&mut g, true),
         };
-        if lex(&l.tokens).is_ok() {
+        if let Ok(toks) = lex(&l.tokens) {
+            let mut l = l;
+            if g.chance(15) {
+                // white space between tokens never matters; inside a token it would
+                // juxtaposed tokens may fuse (`1` `.` `5`): keep the new spacing only if it lexes to the same tokens
+                let mut spaced = String::new();
+                let mut prev_val = false;
+                for tk in &toks {
+                    let (txt, is_val) = match tk {
+                        Tok::Num(x) | Tok::Ident(x) => (x.clone(), true),
+                        Tok::Punct(c) => (c.to_string(), false),
+                    };
+                    if !spaced.is_empty() && (g.chance(50) || (prev_val && is_val)) {
+                        spaced.push(' ');
+                    }
+                    spaced.push_str(&txt);
+                    prev_val = is_val;
+                }
+                if lex(&spaced).as_ref() == Ok(&toks) {
+                    l.tokens = spaced;
+                    l.labels.push("text: random white space between tokens".into());
+                }
+            }
             return l;
         }
     }
@@ -1938,6 +2005,7 @@ struct Agg {
     run_s: f64,
     per_macro: BTreeMap<String, u64>,
     rejected_may: u64,
+    rejected_by: BTreeMap<String, u64>,
 }
 
 fn account(agg: &mut Agg, ck: &Check, lits: &[Lit], obs: &[Obs], bits32: bool) {
@@ -1956,6 +2024,9 @@ fn account(agg: &mut Agg, ck: &Check, lits: &[Lit], obs: &[Obs], bits32: bool) {
             (Comp::Expansion(_), FAIL) => "outcome: rejected when compiling the expansion",
             (Comp::Macro(_), MAY) => {
                 agg.rejected_may += 1;
+                for lab in l.labels.iter().filter(|x| x.contains("not in the macro docs") || x.contains("docs show") || x.contains("not promised") || x.contains("tests only")) {
+                    *agg.rejected_by.entry(lab.clone()).or_default() += 1;
+                }
                 "outcome: undocumented form rejected by the macro"
             }
             _ => "outcome: documented form did not compile",
@@ -1997,6 +2068,7 @@ fn report(ck: &mut Check, name: &str, agg: Agg, engine: &str) {
         "inconclusive_samples": agg.incon.iter().take(3).collect::<Vec<_>>(),
         "violations_total": agg.violations.len(),
         "undocumented_forms_rejected": agg.rejected_may,
+        "undocumented_forms_rejected_by_label": agg.rejected_by,
     });
     let first = agg.violations.into_iter().next();
     ck.external(name, agg.evals, agg.distinct.len() as u64, agg.labels, agg.samples, first, Some(extra));
@@ -2023,11 +2095,11 @@ fn main() {
 
     if !ck.is_replay() {
         let scale = ck.scale;
-        let n_batches = (((if th { 80.0 } else { 8.0 }) * scale).ceil() as usize).max(1);
+        let n_batches = (((if th { 80.0 } else { 6.0 }) * scale).ceil() as usize).max(1);
         let per_batch = 400usize;
-        let n32 = (((if th { 16.0 } else { 2.0 }) * scale).ceil() as usize).max(1);
+        let n32 = (((if th { 16.0 } else { 1.0 }) * scale).ceil() as usize).max(1);
         let per32 = 400;
-        let n_neg = (((if th { 1000.0 } else { 100.0 }) * scale).ceil() as usize).max(8);
+        let n_neg = (((if th { 1000.0 } else { 80.0 }) * scale).ceil() as usize).max(8);
 
         if ck.wants("literals@batch") {
             let mut agg = Agg::default();
